@@ -44,6 +44,9 @@ type FuncContract struct {
 	Loops    []LoopClause
 	Uses     []string
 	UseExprs []ast.Expr
+	// Focus: proof hints "focus goal: fact fact ..." - when the full context is undecided, the goal is retried with
+	// only the quantified specification facts named here (and those carrying the goal's own name); hiding facts is sound.
+	Focus map[string][]string
 	PreCalls []PreCall
 	File     string
 	Line     int
@@ -441,6 +444,18 @@ func (db *ContractDB) parseFile(pkg, file, text string) {
 				continue
 			}
 			cur.PreCalls = append(cur.PreCalls, PreCall{Callee: callee, Nth: nth, Label: label, Src: src, Expr: e, Line: l.line})
+		case "focus":
+			if cur != nil {
+				label, src := splitLabel(rest)
+				if label == "" {
+					errf(l.line, "bad focus clause")
+					continue
+				}
+				if cur.Focus == nil {
+					cur.Focus = map[string][]string{}
+				}
+				cur.Focus[label] = append(cur.Focus[label], strings.Fields(strings.ReplaceAll(src, ",", " "))...)
+			}
 		case "use":
 			if cur != nil {
 				e, err := parser.ParseExpr(rest)
